@@ -32,6 +32,7 @@ import (
 	"connectrpc.com/connect"
 	"golang.org/x/net/http2"
 	"golang.org/x/net/http2/h2c"
+	"google.golang.org/protobuf/encoding/protojson"
 	"google.golang.org/protobuf/proto"
 	"google.golang.org/protobuf/reflect/protoreflect"
 	"google.golang.org/protobuf/types/known/anypb"
@@ -379,17 +380,82 @@ type verifC19Stub struct {
 }
 
 // spec = 8 bytes big-endian wanted size of the response message + 1 byte fill (0 zeros, 1 noise)
-func verifC19Spec(want int64, fill int64) []byte {
+func verifC19Spec(want int64, fill int64, codec ...conformancev1.Codec) []byte {
 	spec := binary.BigEndian.AppendUint64(nil, uint64(want))
-	return append(spec, byte(fill))
+	spec = append(spec, byte(fill))
+	if len(codec) == 1 && codec[0] != conformancev1.Codec_CODEC_PROTO {
+		// 10th byte: the codec the size is meant in (the receive limit applies to the message as the
+		// codec of the RPC encodes it: JSON text under CODEC_JSON)
+		spec = append(spec, byte(codec[0]))
+	}
+	return spec
+}
+
+// size of the message as the codec of the RPC encodes it - what connect-go's WithReadMaxBytes measures
+// (envelopeReader / connectUnaryUnmarshaler count the bytes of the encoded message).  The JSON encoding
+// is the one connect-go's protoJSONCodec produces (protojson.MarshalOptions{}.Marshal; its whitespace
+// is fixed per binary, and sender and harness are the same binary).
+func verifC19EncSize(codec conformancev1.Codec, msg proto.Message) int {
+	if codec == conformancev1.Codec_CODEC_JSON {
+		data, err := protojson.MarshalOptions{}.Marshal(msg)
+		if err != nil {
+			return -1
+		}
+		return len(data)
+	}
+	return proto.Size(msg)
+}
+
+func verifC19SpecCodec(spec []byte) conformancev1.Codec {
+	if len(spec) == 10 {
+		return conformancev1.Codec(spec[9])
+	}
+	return conformancev1.Codec_CODEC_PROTO
+}
+
+// payload such that the JSON encoding of wrap(payload) has exactly `want` bytes: base64 text grows in steps
+// of 4, so the bulk goes into data (a multiple of 3 bytes) and the remainder into a header name of the
+// request info (one byte of text per byte)
+func verifC19SizedPayloadJSON(want int, noise bool, wrap func(*conformancev1.ConformancePayload) proto.Message) *conformancev1.ConformancePayload {
+	const slack = 160
+	if want < 2*slack {
+		return nil
+	}
+	payload := &conformancev1.ConformancePayload{
+		Data: make([]byte, (want-slack)/4*3),
+		RequestInfo: &conformancev1.ConformancePayload_RequestInfo{
+			RequestHeaders: []*conformancev1.Header{{Name: "x"}},
+		},
+	}
+	if noise {
+		verifC19Noise(payload.Data, uint64(want))
+	}
+	for tries := 0; tries < 4; tries++ {
+		diff := want - verifC19EncSize(conformancev1.Codec_CODEC_JSON, wrap(payload))
+		if diff == 0 {
+			return payload
+		}
+		nameLen := len(payload.RequestInfo.RequestHeaders[0].Name) + diff
+		if nameLen < 1 {
+			return nil
+		}
+		payload.RequestInfo.RequestHeaders[0].Name = strings.Repeat("x", nameLen)
+	}
+	return nil
 }
 
 // payload such that proto.Size(wrap(payload)) == want exactly, or nil if unreachable
 func verifC19SizedPayload(spec []byte, wrap func(*conformancev1.ConformancePayload) proto.Message) *conformancev1.ConformancePayload {
-	if len(spec) != 9 {
+	if len(spec) != 9 && len(spec) != 10 {
 		return nil
 	}
 	want := int(binary.BigEndian.Uint64(spec))
+	if len(spec) == 10 {
+		if verifC19SpecCodec(spec) != conformancev1.Codec_CODEC_JSON {
+			return nil
+		}
+		return verifC19SizedPayloadJSON(want, spec[8] != 0, wrap)
+	}
 	dataLen := want - 8
 	for tries := 0; tries < 8 && dataLen >= 0; tries++ {
 		payload := &conformancev1.ConformancePayload{Data: make([]byte, dataLen)}
@@ -618,7 +684,21 @@ func verifC19Address(req *conformancev1.ClientCompatRequest, server *conformance
 	}
 }
 
-// side off httpVersion protocol compression streamType fill -> (limit size accepted)
+// the codec of the RPC, where it is not the binary one (after verifC19Address)
+func verifC19SetCodec(req *conformancev1.ClientCompatRequest, codec conformancev1.Codec) {
+	req.Codec = codec
+	for _, hdr := range req.RequestHeaders {
+		if hdr.Name == "x-expect-codec" {
+			hdr.Value = []string{strconv.Itoa(int(codec))}
+		}
+	}
+}
+
+// side off httpVersion protocol compression streamType fill [codec] -> (limit size accepted)
+//
+// codec (side 1 only; default 1 = proto, 2 = JSON): the codec of the RPC.  The client's receive limit is
+// on the message whatever the codec: under JSON the response is sized so that its JSON encoding (what
+// the limit then applies to) has exactly clientReceiveLimit+off bytes.
 //
 // side 0: a request of uncompressed size serverReceiveLimit+off (built by expandRequestData)
 // is sent by the reference client to a reference server started exactly as the runner starts it.
@@ -629,7 +709,7 @@ func verifC19Address(req *conformancev1.ClientCompatRequest, server *conformance
 // compressed form is longer than the limit already at off <= 0; fill 0: zeros (compressed form
 // far below the limit also at off > 0).
 func verifC19Sharp(args []vsx) vsx {
-	if len(args) != 7 {
+	if len(args) != 7 && len(args) != 8 {
 		return vErr("bad-case")
 	}
 	for _, a := range args {
@@ -638,6 +718,13 @@ func verifC19Sharp(args []vsx) vsx {
 		}
 	}
 	side, off, fill := args[0].i, args[1].i, args[6].i
+	codec := conformancev1.Codec_CODEC_PROTO
+	if len(args) == 8 {
+		codec = conformancev1.Codec(args[7].i)
+		if codec != conformancev1.Codec_CODEC_PROTO && codec != conformancev1.Codec_CODEC_JSON || side != 1 {
+			return vErr("bad-case")
+		}
+	}
 	httpVersion := conformancev1.HTTPVersion(args[2].i)
 	protocol := conformancev1.Protocol(args[3].i)
 	compress := conformancev1.Compression(args[4].i)
@@ -729,7 +816,7 @@ func verifC19Sharp(args []vsx) vsx {
 		server, err = verifC19.server(httpVersion, uint32(serverReceiveLimit))
 	} else {
 		limit = int64(clientReceiveLimit)
-		spec := verifC19Spec(limit+off, fill)
+		spec := verifC19Spec(limit+off, fill, codec)
 		if streamType == conformancev1.StreamType_STREAM_TYPE_UNARY {
 			method = "Unary"
 			if verifC19SizedPayload(spec, verifC19WrapUnary) == nil {
@@ -755,7 +842,13 @@ func verifC19Sharp(args []vsx) vsx {
 		if streamType == conformancev1.StreamType_STREAM_TYPE_UNARY {
 			wrap = verifC19WrapUnary
 		}
-		msgBytes, merr := proto.Marshal(wrap(verifC19SizedPayload(spec, wrap)))
+		var msgBytes []byte
+		var merr error
+		if codec == conformancev1.Codec_CODEC_JSON {
+			msgBytes, merr = protojson.MarshalOptions{}.Marshal(wrap(verifC19SizedPayload(spec, wrap)))
+		} else {
+			msgBytes, merr = proto.Marshal(wrap(verifC19SizedPayload(spec, wrap)))
+		}
 		if merr != nil || int64(len(msgBytes)) != size {
 			return vErr("response-size-unreachable")
 		}
@@ -768,6 +861,9 @@ func verifC19Sharp(args []vsx) vsx {
 		return vErr("server-start")
 	}
 	verifC19Address(req, server, httpVersion, protocol, compress, method, streamType)
+	if codec != conformancev1.Codec_CODEC_PROTO {
+		verifC19SetCodec(req, codec)
+	}
 	resp, err := verifC19.call(req)
 	if err != nil {
 		return vErr("client-io")
@@ -794,7 +890,7 @@ func verifC19Sharp(args []vsx) vsx {
 			if streamType == conformancev1.StreamType_STREAM_TYPE_UNARY {
 				wrap = verifC19WrapUnary
 			}
-			if int64(proto.Size(wrap(last))) != size {
+			if int64(verifC19EncSize(codec, wrap(last))) != size {
 				return vErr("response-size-differs")
 			}
 		}
